@@ -1,9 +1,12 @@
 #!/usr/bin/env python3
-"""tools/kill_matrix.py [names...] [--all-checks] : apply each seeded mutant to /repo, run quick checks, undo; write seeded/KILL_MATRIX.json"""
+"""tools/kill_matrix.py [names...] [--all-checks] [--inplace] : run the quick check(s) of each seeded change's property against the change and
+record what catches it in seeded/KILL_MATRIX.json.  Default: each change is applied to a scratch copy of /repo/src (tools/with_patch.sh,
+SYSLOSS_SRC), four at a time, /repo stays untouched.  --inplace: `git -C /repo apply`, run, `git -C /repo checkout -- .` (serial), as a user would."""
 import json, os, subprocess, sys, re, time
+from concurrent.futures import ThreadPoolExecutor
 ROOT = "/verif"
 args = [a for a in sys.argv[1:] if not a.startswith("--")]
-allchecks = "--all-checks" in sys.argv
+allchecks = "--all-checks" in sys.argv; inplace = "--inplace" in sys.argv
 man = json.load(open(ROOT + "/MANIFEST.json"))
 claimed = [c["property_id"] for c in man["checks"]]
 names = args or sorted(os.listdir(ROOT + "/seeded"))
@@ -11,30 +14,43 @@ names = [n for n in names if os.path.isdir("%s/seeded/%s" % (ROOT, n))]
 path = ROOT + "/seeded/KILL_MATRIX.json"
 mat = json.load(open(path)) if os.path.exists(path) else {}
 def sh(cmd, **kw): return subprocess.run(cmd, shell=True, capture_output=True, text=True, **kw)
-assert sh("git -C /repo status --porcelain").stdout.strip() == "", "/repo dirty"
+if inplace: assert sh("git -C /repo status --porcelain").stdout.strip() == "", "/repo dirty"
+
+
+def one(job):
+    n, pid = job
+    t0 = time.time()
+    patch = "%s/seeded/%s/patch.diff" % (ROOT, n)
+    if inplace:
+        r = sh("git -C /repo apply %s" % patch)
+        if r.returncode != 0: return n, pid, {"note": "patch does not apply: " + r.stderr[:200]}
+        try: r = sh("cd /verif && timeout 1800 bin/check %s --tier quick" % pid)
+        finally: sh("git -C /repo checkout -- .")
+    else:
+        r = sh("cd /verif && timeout 1800 tools/with_patch.sh %s -- bin/check %s --tier quick" % (patch, pid))
+        if r.returncode == 9: return n, pid, {"note": "patch does not apply"}
+    viol = re.findall(r"VIOLATION property=\S+ replay=\S+(?: no-failing-input-found)?", r.stdout)
+    obl = []
+    for v in viol[:6]:
+        m = re.search(r"replay=(\S+)", v)
+        try:
+            d = json.load(open(m.group(1))); obl.append(d.get("obligation") or d.get("oracle"))
+        except Exception: pass
+    return n, pid, {"exit": r.returncode, "violations": len(viol), "first": obl[:4], "no_input": sum("no-failing" in v for v in viol), "s": round(time.time() - t0, 1),
+                    "other": [l for l in r.stdout.splitlines() if l.startswith(("CHECKER-FAULT", "UNDECIDED"))][:3]}
+
+
+jobs = []
 for n in names:
     prop = [x for x in n.split("_") if x.startswith("C")][0]
     ids = claimed if allchecks else [p for p in [prop] if p in claimed]
-    if not ids:
-        mat.setdefault(n, {})["note"] = "property %s not claimed yet" % prop; continue
-    r = sh("git -C /repo apply %s/seeded/%s/patch.diff" % (ROOT, n))
-    if r.returncode != 0:
-        mat.setdefault(n, {})["note"] = "patch does not apply: " + r.stderr[:200]; continue
-    try:
-        for pid in ids:
-            t0 = time.time()
-            r = sh("cd /verif && timeout 1800 bin/check %s --tier quick" % pid)
-            viol = re.findall(r"VIOLATION property=\S+ replay=\S+(?: no-failing-input-found)?", r.stdout)
-            obl = []
-            for v in viol[:6]:
-                m = re.search(r"replay=(\S+)", v)
-                try:
-                    d = json.load(open(m.group(1))); obl.append(d.get("obligation") or d.get("oracle"))
-                except Exception: pass
-            mat.setdefault(n, {})[pid] = {"exit": r.returncode, "violations": len(viol), "first": obl[:4], "no_input": sum("no-failing" in v for v in viol), "s": round(time.time() - t0, 1),
-                                          "other": [l for l in r.stdout.splitlines() if l.startswith(("CHECKER-FAULT", "UNDECIDED"))][:3]}
-            print(n, pid, "exit", r.returncode, len(viol), "violations", obl[:2], flush=True)
-    finally:
-        sh("git -C /repo checkout -- .")
-    json.dump(mat, open(path, "w"), indent=1)
-assert sh("git -C /repo status --porcelain").stdout.strip() == ""
+    if not ids: mat.setdefault(n, {})["note"] = "property %s not claimed yet" % prop; continue
+    jobs += [(n, pid) for pid in ids]
+with ThreadPoolExecutor(1 if inplace else 4) as ex:
+    for n, pid, res in ex.map(one, jobs):
+        if "note" in res and "exit" not in res: mat.setdefault(n, {})["note"] = res["note"]; print(n, pid, res["note"], flush=True); continue
+        mat.setdefault(n, {})[pid] = res
+        print(n, pid, "exit", res["exit"], res["violations"], "violations", res["first"][:2], flush=True)
+        json.dump(mat, open(path, "w"), indent=1)
+json.dump(mat, open(path, "w"), indent=1)
+if inplace: assert sh("git -C /repo status --porcelain").stdout.strip() == ""
